@@ -19,6 +19,12 @@ class OptimizeLoadAfterStoreVisitor(Visitor.DefaultVisitor):
             if not isinstance(previous, LinearIR.VariableAccessInstruction):
                 return
 
+            # A store gives the variable its own copy of an array or a
+            # structure, and these are updated in place through the loaded
+            # value: such a load is not the value that was stored
+            if vai.Type.IsArray() or vai.Type.IsStructure():
+                return
+
             # The previous instruction is a store to the same variable. Replace
             # ourselves with the value that was stored
             if previous.Variable == vai.Variable and previous.Store is not None:
